@@ -127,7 +127,8 @@ def case_term(c):
         return "(CPow %s %d%%nat)" % (it, c["arity"])
     if k == "sr":
         t = c["ty"]
-        return "(CSr %s %s %s %s)" % (SRTY[t], g_sval(t, c["a"]), g_sval(t, c["b"]), g_sval(t, c["c"]))
+        ctor = "CSrRel" if c.get("profile") == "release" else "CSr"
+        return "(%s %s %s %s %s)" % (ctor, SRTY[t], g_sval(t, c["a"]), g_sval(t, c["b"]), g_sval(t, c["c"]))
     if k == "sr_new":
         return "(CSrNew %s %s)" % (SRTY[c["ty"]], g_sval(c["ty"], c["a"]))
     raise ValueError("unknown kind " + k)
@@ -282,9 +283,34 @@ def sr_failed_clauses(c, r):
     return sorted(k for k, ok in cl.items() if not ok)
 
 
+def cost_overflows(c):
+    """does some `a + b` of Cost::mul reach 2^32 while evaluating the 20 expressions?"""
+    INF = None
+    a, b, cc = c["a"], c["b"], c["c"]
+    over = [False]
+
+    def add(x, y):
+        return y if x is INF else x if y is INF else min(x, y)
+
+    def mul(x, y):
+        if x is INF or y is INF:
+            return INF
+        if x + y >= U32:
+            over[0] = True
+        return (x + y) % U32
+    z, o = INF, 0
+    for v in (mul(a, b), mul(b, a), mul(mul(a, b), cc), mul(a, mul(b, cc)), mul(a, add(b, cc)),
+              add(mul(a, b), mul(a, cc)), mul(add(b, cc), a), add(mul(b, a), mul(cc, a)), mul(a, o), mul(o, a),
+              mul(a, z), mul(z, a)):
+        pass
+    return over[0]
+
+
 def finding_key(c, r):
     if not isinstance(r, dict):
         return None
+    if c["k"] == "sr" and c["ty"] == "cost" and c.get("profile") == "release" and cost_overflows(c):
+        return "Cost/mul/release-overflow-wraps"
     if c["k"] == "linearity" and "r" in r:
         ok = r["r"] == "ok"
         if ok != law_holds(c) and ok == linearity_swapped(c):
@@ -457,6 +483,13 @@ def gen_checkers(rng, tier, n_hint):
         if thorough:
             for t in all_tables(3):
                 cases.append(mk(k, 3, [0, 1, 2], "exh3", f=t))
+    if thorough:
+        for t in all_tables(3):
+            for e in range(3):
+                cases.append(mk("identity", 3, [0, 1, 2], "exh3", f=t, e=e))
+                cases.append(mk("absorbing_element", 3, [0, 1, 2], "exh3", f=t, e=e))
+            cases.append(mk("monoid", 3, [0, 1, 2], "exh3", f=t, e=rng.below(3)))
+            cases.append(mk("no_nonzero_zero_divisors", 3, [0, 1, 2], "exh3", f=t, e=rng.below(3)))
     for t in all_tables(2):
         for e in range(2):
             for k in ("identity", "absorbing_element", "monoid", "commutative_monoid", "no_nonzero_zero_divisors"):
@@ -646,6 +679,21 @@ def gen_sr(rng, tier, n_hint):
     return cases
 
 
+def gen_sr_release(rng, n):
+    """semiring cases run on the harness built with the release profile (no overflow checks)"""
+    cases = [{"k": "sr", "ty": "cost", "a": U32 - 1, "b": 1, "c": 0, "profile": "release", "src": "lib"}]
+    for _ in range(n):
+        for ty in ("cost", "multiplicity"):
+            v = [rnd_n(rng) for _ in range(3)]
+            if ty == "cost":
+                v = [None if rng.chance(1, 6) else x for x in v]
+            cases.append({"k": "sr", "ty": ty, "a": v[0], "b": v[1], "c": v[2], "profile": "release", "src": "rnd"})
+    for a in (0, 1):
+        for b in (0, 1):
+            cases.append({"k": "sr", "ty": "binary_trust", "a": a, "b": b, "c": 1 - a, "profile": "release", "src": "exh"})
+    return cases
+
+
 def corpus(prop):
     out = []
     for p in sorted(glob.glob(os.path.join(ROOT, "corpus", prop, "*.json"))):
@@ -654,8 +702,12 @@ def corpus(prop):
     return out
 
 
+def split_profile(cases):
+    return ([c for c in cases if c.get("profile") != "release"], [c for c in cases if c.get("profile") == "release"])
+
+
 def gen(rng, tier, n_hint):
-    return (corpus("C09") + gen_checkers(rng.fork(), tier, n_hint) + gen_cpow(rng.fork(), tier, n_hint)
+    return (split_profile(corpus("C09"))[0] + gen_checkers(rng.fork(), tier, n_hint) + gen_cpow(rng.fork(), tier, n_hint)
             + gen_sr(rng.fork(), tier, n_hint))
 
 
@@ -792,4 +844,6 @@ THEOREMS = [
     "C09_multiplicity_semiring",
     "C09_cost_semiring",
     "C09_confidence_mul_assoc_refuted",
+    "C09_cost_release_overflow_refuted",
+    "C09_fuzzy_semiring",
 ]
